@@ -171,13 +171,22 @@ func verifC06History() {
 	hellos := 0
 	sharedSeals := 0 // hellos the client sealed with the first hello's HPKE context
 	for i := 0; i < steps; i++ {
-		ev := vInt(0, 8)
-		if ev <= 4 { // ---- backend writes one record
+		ev := vInt(0, 9)
+		if ev <= 4 || ev == 9 { // ---- backend writes one record (or two in one call)
 			var rec []byte
 			switch ev {
 			case 0:
+				// an ordinary ServerHello: any random other than the HelloRetryRequest
+				// value, including ones that differ from it in a single byte
 				r := vBytes(32)
-				vAssume(r[0] != 0xCF)
+				if vBool() {
+					r = append([]byte{}, vHRRRandom...)
+					d := vByte()
+					vAssume(d != 0)
+					r[[]int{0, 31, 13, 7, 24}[vInt(0, 2+2*vTier())]] ^= d // first, last, inner positions
+				} else {
+					vAssume(r[0] != 0xCF)
+				}
 				rec = vServerHello(r, st.first.outer.sid)
 			case 1:
 				rec = vServerHello(vHRRRandom, st.first.outer.sid)
@@ -192,6 +201,12 @@ func verifC06History() {
 				writeLive = false
 			case 4:
 				rec = vRecord(22, 0x0303, vCat([]byte{8}, vU24(2), vBytes(2)))
+			case 9: // HelloRetryRequest and change_cipher_spec flushed in one Write, as crypto/tls does
+				rec = vCat(vServerHello(vHRRRandom, st.first.outer.sid), vRecord(20, 0x0303, []byte{1}))
+				if writeLive {
+					hrrSeen++
+					writeLive = false
+				}
 			}
 			before := len(tr.out)
 			var n int
